@@ -115,6 +115,17 @@ var curated = []string{
 	"let and = 1; T",
 	"T | sort by a, b desc | limit 0x10",
 	"T | where 1e3 < a and .5 > b and 007 == c",
+	// several sub-parts of the same kind: two errors, two lets, several join conditions, several joins
+	"T | bogus | alsobogus | where a == #",
+	"let x = no1; let y = no2; T | where q == !",
+	"T | where a == # and b == ! | project strcat()",
+	"T | join kind=nope (U | join kind=alsonope (V) on k) on a",
+	"T | join (U) on a, b, $left.c == $right.d | join kind=leftouter (V | where z > 1) on k | join (W) on w",
+	"let p = 1; let q = 2; let r = p + q; let s = 's'; T | project p, q, r, s | extend p2 = p * 2, q2 = q * 2",
+	"T | summarize a = count(), b = sum(x), c = min(y), d = max(z) by k, State, EventType | sort by a, b, c desc",
+	"T | project a, a, b = a, a = b",
+	"T | extend x = 1, y = 2 | extend x = y, y = x",
+	"T | where x in (1, 2, 3) and y in ('a', 'b') or n in (x, y)",
 }
 
 // GenPool generates the workload pool for a base seed: every source under several parameter maps.
